@@ -13,6 +13,7 @@ sys.path.insert(0, os.path.join(os.path.dirname(os.path.abspath(__file__)), '..'
 import common
 import meta_common as M
 import meta_falsify as F
+import whole_common as W
 from gen import meta as G
 
 def replay_corpus(chk, work, stats):
@@ -112,6 +113,8 @@ def main():
         mo_model_stream(chk, work, 40 * scale)
         found += F.cli_subset(chk, work, 8 * scale, stats)
         keyed = F.charset_declarations(chk, work, stats)
+        # --- the composed model against the real tool on whole files (loader model ∘ Real.pipeline vs Checker.check)
+        found += W.stream(chk, work.root, chk.rng, 260 * scale)
         # --- the metamorphic falsifiers
         seeds = [chk.seed] + ([chk.seed + 1000 * k for k in (1, 2, 3)] if thorough else [])
         import random
